@@ -19,15 +19,50 @@ def plan(tier, seed):
     if tier == "thorough":
         jobs.append({"id": "C10:n=6 top_k=0 topp", "module": "vf.decoding", "func": "decoding_job", "params": dict(n=6, top_k=0, mode="topp")})
         jobs.append({"id": "C10:n=6 top_k=3 plain", "module": "vf.decoding", "func": "decoding_job", "params": dict(n=6, top_k=3, mode="plain")})
+    import random
+
+    rng = random.Random(seed)
+    reqs = []
+    for _ in range(10):
+        n = rng.choice([3, 5, 8])
+        mask = [rng.random() < 0.7 for _ in range(n)]
+        mask[rng.randrange(n)] = True
+        vals = [round(rng.uniform(-3, 3), 2) for _ in range(n)]
+        if rng.random() < 0.5:
+            vals[rng.randrange(n)] = vals[0]  # tie
+        reqs.append({"kind": "script", "path": __import__("vf.core", fromlist=["ROOT"]).ROOT + "/vf/torch_side", "module": "decoding_side", "func": "run",
+                     "params": {"logits": vals, "mask": mask, "temperature": rng.choice([0.5, 1.0, 2.0]), "top_p": rng.choice([0.0, 0.3, 0.9]),
+                                "top_k": rng.choice([0, 1, 2, n]), "tanh_clipping": rng.choice([0.0, 0.0, 10.0]), "shift": 0.0}})
     return {
-        "jobs": jobs, "level": "model_checking",
+        "jobs": jobs, "torch_requests": reqs, "level": "model_checking",
         "bounds": "n actions, B=1; logits, mask, temperature, top_p, tanh clipping symbolic; top_k enumerated 0..n+1",
         "outside": "float overflow of exp for huge magnitudes (real-arithmetic model); B>1 (row-wise code)",
     }
 
 
 def validate(reqs, resps):
-    return 0, [], []
+    """translator validation: the same concrete inputs through symtorch (concrete mode, real softmax arithmetic)"""
+    from symtorch import explore, world
+    from symtorch import tensor as T
+
+    n_ok, bad = 0, []
+    for rq, rs in zip(reqs, resps):
+        p = rq["params"]
+        if "error" in rs:
+            bad.append("real process_logits failed on a validation input: " + rs["error"])
+            continue
+        explore.EXP.reset_all()
+        explore.EXP._new_path()
+        dec = world.make_world().load("rl4co.utils.decoding")
+        lp = dec.process_logits(T.tensor([p["logits"]], dtype=T.float32), T.tensor([p["mask"]], dtype=T.bool_), temperature=p["temperature"],
+                                top_p=p["top_p"], top_k=p["top_k"], tanh_clipping=p["tanh_clipping"])
+        mine = [float(x) for x in lp.a[0]]
+        real = [_f(x) for x in rs["logprobs"]]
+        if any((a == -math.inf) != (b == -math.inf) or (a > -math.inf and abs(a - b) > 1e-4 * (1 + abs(a))) for a, b in zip(mine, real)):
+            bad.append(f"process_logits differs on {p}: symtorch {mine} vs torch {real}")
+        else:
+            n_ok += 1
+    return n_ok, bad, []
 
 
 def _f(x):
